@@ -368,6 +368,67 @@ def r3_rtu_sizes(ck, cx):
           'cls._rtu_frame_size' in txt and 'rtuFrameSize(%s, cls._rtu_byte_count_pos)' % base.params[1] in txt, detail='base-size-shape', loc=cx.floc(base))
 
 
+def r3_lookup_pdu_class(ck, cx, rule='R3', decoders=('ServerDecoder', 'ClientDecoder')):
+    """populateHeader sizes an RTU frame with decoder.lookupPduClass(function code byte).calculateRtuFrameSize(buffer).  The builder
+    puts message.function_code in that byte (error replies: code | 0x80), so the oracle is right only if the table is consulted
+    with the byte as it is, anything not in the table is sized as the 5-byte exception frame, and every class that can come back
+    knows its size (the base calculateRtuFrameSize raises NotImplementedException otherwise, which isFrameReady does not catch)."""
+    n = 0
+    exc = cx.idx.cls('pymodbus.pdu.ExceptionResponse')
+
+    def sized(k):
+        if cx.ce.try_ev(ast.Name(id='_rtu_frame_size', ctx=ast.Load()), k.mod, k) is not None:
+            return True
+        if cx.ce.try_ev(ast.Name(id='_rtu_byte_count_pos', ctx=ast.Load()), k.mod, k) is not None:
+            return True
+        custom = cx.idx.find_method(k, 'calculateRtuFrameSize')
+        return custom is not None and custom.cls.name != 'ModbusPDU'
+    for dn in decoders:
+        d = cx.idx.cls('pymodbus.factory.' + dn)
+        f = cx.method(d, 'lookupPduClass')
+        ck.saw('functions', f.qn)
+        param = f.params[1]
+        for p in cx.enum(f, d, max_depth=0):
+            annotate(p)
+            if p.exit and p.exit[0] == 'exc':
+                continue
+            r = ret_expr(p)
+            n += 1
+            classes, key, default_ok = [], None, True
+            if isinstance(r, ast.Call) and isinstance(r.func, ast.Attribute) and r.func.attr == 'get' and U(r.func.value).endswith('__lookup') and r.args:
+                key = r.args[0]
+                dflt = r.args[1] if len(r.args) > 1 else None
+                k = cx.idx.resolve_class_expr(f.mod, dflt) if dflt is not None else None
+                classes.append((dflt, k))
+                conds = [(U(e._sub), e.a) for e in p.ev if e.kind == 'cond']
+                default_ok = k is exc or any(param in c for c, a in conds)
+            elif isinstance(r, ast.Subscript) and U(r.value).endswith('__lookup'):
+                key = r.slice
+            elif isinstance(r, ast.Name):
+                classes.append((r, cx.idx.resolve_class_expr(f.mod, r)))
+            else:
+                ck.ob(rule, f.qn, 'the result is a table lookup or a class', False, detail='lookup-result-not-recognised %s' % (U(r)[:40] if r is not None else None), loc=cx.floc(f),
+                      message='%s.lookupPduClass returns `%s`: not a lookup in the function table nor a class' % (dn, U(r)[:60] if r is not None else None))
+                continue
+            if key is not None:
+                ck.ob(rule, f.qn, 'the function table is consulted with the function-code byte as received', isinstance(key, ast.Name) and key.id == param,
+                      detail='lookup-key-transformed %s' % U(key)[:40], loc=cx.floc(f, r),
+                      message='%s.lookupPduClass looks `%s` up instead of the received function-code byte: an error reply (code | 0x80) is sized as the normal '
+                              'response of that function, so the RTU receiver waits for / cuts a frame of the wrong length and the exception reply is never delivered'
+                              % (dn, U(key)[:50]))
+                ck.ob(rule, f.qn, 'codes outside the table are sized as the exception frame', default_ok, detail='lookup-default-not-exception', loc=cx.floc(f, r),
+                      message='%s.lookupPduClass falls back to `%s` for every code outside the table, error replies (code | 0x80) included: they are 5-byte exception frames'
+                              % (dn, U(classes[0][0]) if classes and classes[0][0] is not None else None))
+            for node, k in classes:
+                ok = k is not None and hasattr(k, 'mod') and sized(k)
+                ck.ob(rule, f.qn, 'the class `%s` that can be returned knows its RTU frame size' % (U(node) if node is not None else None), ok,
+                      detail='lookup-returns-unsized-class %s' % (U(node) if node is not None else None), loc=cx.floc(f, r),
+                      message='%s.lookupPduClass can return %s, which declares neither _rtu_frame_size nor _rtu_byte_count_pos: calculateRtuFrameSize raises '
+                              'NotImplementedException out of the RTU framer\'s isFrameReady (not caught there), the header stays half populated and the receiver '
+                              'stops delivering frames' % (dn, U(node) if node is not None else None))
+    ck.floor(rule, n, len(decoders), 'return paths of lookupPduClass')
+
+
 def _same_len(rest, bc):
     """sum-of-record-sizes forms compare equal when the summand agrees"""
     if rest == bc:
@@ -547,6 +608,7 @@ def run(ck, tier):
     builds = ck.guard(r1_build, ck, cx) or {}
     ck.guard(r2_agreement, ck, cx, builds)
     ck.guard(r3_rtu_sizes, ck, cx)
+    ck.guard(r3_lookup_pdu_class, ck, cx)
     ck.guard(r4_transforms, ck, cx, builds)
     ck.guard(r6_header_keys_defined, ck, cx)
     ck.guard(r7_struct_codes_and_minimum, ck, cx)
